@@ -13,7 +13,19 @@ import (
 //
 // Productions are always upper cased. Lexer tokens are always lower case.
 func (p *Parser[G]) String() string {
-	return ebnf(p.typeNodes[p.rootType])
+	root := p.typeNodes[p.rootType]
+	if u, ok := root.(*union); ok {
+		// ebnf() renders a union as a reference to it (which is what error messages want); as the
+		// root of the grammar it is written out with all of its productions.
+		outp := []*ebnfp{}
+		buildEBNF(true, u, map[node]bool{}, nil, &outp)
+		out := []string{}
+		for _, prod := range outp {
+			out = append(out, fmt.Sprintf("%s = %s .", prod.name, prod.out))
+		}
+		return strings.Join(out, "\n")
+	}
+	return ebnf(root)
 }
 
 // ebnfName returns the production name for a type: its name with an upper-case first letter, or,
